@@ -1,0 +1,7 @@
+//go:build !verif
+
+package spine
+
+// verifYield marks a window boundary for the verification harness; without the
+// build tag `verif` it is a no-op that the compiler inlines away.
+func verifYield(string) {}
